@@ -38,8 +38,8 @@ def run(chk):
                 count = len(listing[b])
                 want = True if k in ("high", "allowed") else False if k == "never" else (lim is None or count < lim)
                 if r.startswith("ok") != want:
-                    chk.monitor_fail("inbound admission: listener %d (limit %s, %d established connection(s), affinity for dialer %d: %s) %s the connection" %
-                                     (b, lim, count, a, k, "admitted" if r.startswith("ok") else "rejected"), dict(case=rec["scenario"][:2500], op_index=oi))
+                    chk.monitor_fail("inbound admission: listener %d (limit %s, %d established connection(s), affinity for dialer %d: %s) %s" %
+                                     (b, lim, count, a, k, "admitted the connection" if r.startswith("ok") else "should admit the explicit dial from %d, which failed (refused at either end)" % a), dict(case=rec["scenario"][:2500], op_index=oi))
                     break
             listing = {i: [x for x in res[ppos - 1 + (i - 1)].strip("[]").split(",") if x] for i in range(1, nn + 1)}
         never = set()
